@@ -3,7 +3,7 @@
    holding the lock, release, Event.wait returning) or one piece of unlocked thread-local work
    (_get_next_version_id, copying the latest nodes, one edit, reading).  Any number of threads.
 
-   Mirrors  Zone.writer (loop: with lock: test / admit / enqueue; event.wait()),
+   Mirrors  Zone.writer (loop: with lock: test / grant / enqueue; event.wait()),
             Transaction._setup_version -> WritableVersion.__init__ (two unlocked reads),
             Transaction._end_transaction -> Zone._commit_version / Zone._end_write
             (_commit_version_unlocked, _end_write_unlocked, _maybe_wakeup_one_waiter_unlocked),
@@ -58,7 +58,7 @@ Record st := mkSt {
   (* ghost *)
   wq : list nat;                 (* threads owning the events of  _write_event ++ _write_waiters *)
   arrivals : list nat;           (* writers in the order of their first critical section in writer() *)
-  admitted : list nat;           (* writers in the order they were admitted *)
+  granted : list nat;           (* writers in the order they were granted *)
   ended : list nat               (* writers in the order their transaction ended *)
 }.
 
@@ -111,20 +111,20 @@ Definition wakeup (s : st) : st :=
   | [] => s
   | e :: rest =>
       mkSt (prg s) (pcs s) (lock s) (wtxn s) (Some e) rest (e :: evset s) (nextev s) (vz s) (failed s)
-           (wq s) (arrivals s) (admitted s) (ended s)
+           (wq s) (arrivals s) (granted s) (ended s)
   end.
 
 Definition set_vz (s : st) (z : VersM.st) : st :=
   mkSt (prg s) (pcs s) (lock s) (wtxn s) (wevent s) (waiters s) (evset s) (nextev s) z (failed s)
-       (wq s) (arrivals s) (admitted s) (ended s).
+       (wq s) (arrivals s) (granted s) (ended s).
 
 Definition set_pc (s : st) (t : nat) (p : pc) : st :=
   mkSt (prg s) (upd (pcs s) t p) (lock s) (wtxn s) (wevent s) (waiters s) (evset s) (nextev s) (vz s)
-       (failed s) (wq s) (arrivals s) (admitted s) (ended s).
+       (failed s) (wq s) (arrivals s) (granted s) (ended s).
 
 Definition set_failed (s : st) (e : Z) : st :=
   mkSt (prg s) (pcs s) (lock s) (wtxn s) (wevent s) (waiters s) (evset s) (nextev s) (vz s)
-       (Some e) (wq s) (arrivals s) (admitted s) (ended s).
+       (Some e) (wq s) (arrivals s) (granted s) (ended s).
 
 Definition sel_op (x : rsel) : op :=
   match x with SelLatest => OpenLatest | SelId i => OpenId i | SelSerial v => OpenSerial v end.
@@ -136,15 +136,15 @@ Definition exec_crit (s : st) (t : nat) (c : crit) : st :=
   | CWriterTest ev =>
       let arr := match ev with None => arrivals s ++ [t] | Some _ => arrivals s end in
       if (match wtxn s with None => true | Some _ => false end) && oeqb ev (wevent s) then
-        (* admitted: self._write_txn = Transaction(...); self._write_event = None; break *)
+        (* granted: self._write_txn = Transaction(...); self._write_event = None; break *)
         let wq' := match ev with None => wq s | Some _ => tl (wq s) end in
         mkSt (prg s) (upd (pcs s) t (Rel SetupId)) (lock s) (Some t) None (waiters s) (evset s)
-             (nextev s) (vz s) (failed s) wq' arr (admitted s ++ [t]) (ended s)
+             (nextev s) (vz s) (failed s) wq' arr (granted s ++ [t]) (ended s)
       else
         (* event = threading.Event(); self._write_waiters.append(event) *)
         let e := nextev s in
         mkSt (prg s) (upd (pcs s) t (Rel (Wait e))) (lock s) (wtxn s) (wevent s) (waiters s ++ [e])
-             (evset s) (S e) (vz s) (failed s) (wq s ++ [t]) arr (admitted s) (ended s)
+             (evset s) (S e) (vz s) (failed s) (wq s ++ [t]) arr (granted s) (ended s)
   | CEndWrite id c commit =>
       (* _commit_version_unlocked: append, prune, nodes := ...; then _end_write_unlocked *)
       let r := if commit
@@ -157,7 +157,7 @@ Definition exec_crit (s : st) (t : nat) (c : crit) : st :=
           | Some t' =>
               if Nat.eqb t' t then
                 wakeup (mkSt (prg s) (upd (pcs s) t (Rel Done)) (lock s) None (wevent s) (waiters s)
-                             (evset s) (nextev s) z (failed s) (wq s) (arrivals s) (admitted s)
+                             (evset s) (nextev s) z (failed s) (wq s) (arrivals s) (granted s)
                              (ended s ++ [t]))
               else set_failed (set_pc s t (Rel Done)) eAssertion
           | None => set_failed (set_pc s t (Rel Done)) eAssertion
@@ -185,7 +185,7 @@ Definition exec_crit (s : st) (t : nat) (c : crit) : st :=
 
 Definition set_lock (s : st) (l : option nat) : st :=
   mkSt (prg s) (pcs s) l (wtxn s) (wevent s) (waiters s) (evset s) (nextev s) (vz s) (failed s)
-       (wq s) (arrivals s) (admitted s) (ended s).
+       (wq s) (arrivals s) (granted s) (ended s).
 
 Definition base_content (p : prog) (z : VersM.st) : content :=
   match p with
@@ -286,7 +286,7 @@ Definition view (n : nat) (s : st) : obs :=
       L (map (fun t => pc_code (pcs s t)) (seq 0 n));
       L (map (fun t => ob (enabled s t)) (seq 0 n));
       match failed s with Some e => E e | None => N end;
-      obs_of_nats (arrivals s); obs_of_nats (admitted s); obs_of_nats (ended s) ].
+      obs_of_nats (arrivals s); obs_of_nats (granted s); obs_of_nats (ended s) ].
 
 Fixpoint edits_of_obs (l : list obs) : option (list edit) :=
   match l with
